@@ -138,7 +138,7 @@ def _explain_o1(ctx):
     ctx.floor('C09.R3', len(n_finders), 6, 'container cause finders interpreted')
 
 
-def container_finder_runs(ctx):
+def container_finder_runs(ctx, is_collection=True, is_sequence=True):
     """(finder, module, tag, is_tuple_fixed, n, kids, log of operations on the checked object) for every container cause
     finder × is_random (× object length for fixed tuples), interpreted under the O1 strategy.  Shared with C03.R3."""
     from sa.fold import AObj, FuncVal, Inst, Sym, _Abort, _Raise, _call_function
@@ -171,6 +171,7 @@ def container_finder_runs(ctx):
 
         def __getitem__(self, i):
             log.append(('item', self.what))
+            log.append(('subscript', self.what))
             return _Item(f'item {i}')
 
         def __iter__(self):
@@ -244,6 +245,12 @@ def container_finder_runs(ctx):
         return saved_b(name, args, kwargs) if saved_b else NotImplemented
 
     def ih(obj, cls):
+        if isinstance(obj, _Bounded) and not is_collection:
+            # an object that is no Collection (a one-shot iterator): every class test on it but `object` fails
+            log.append(('class-test', repr(cls)[:40]))
+            return False
+        if isinstance(obj, _Bounded) and not is_sequence and 'Sequence' in repr(cls) and not isinstance(cls, (tuple, list)):
+            return False        # a Collection that is not a Sequence (a set, a mapping, a defaultdict …)
         if isinstance(obj, (_Bounded, _ACause)):
             return True
         return saved_i(obj, cls) if saved_i else None
